@@ -94,10 +94,10 @@ CHECKS = {
             "the specification resolves to, with and without declarations.",
             "Trusted: TLC, the harness's construction of dotted bindings. References that stop at a bare namespace prefix are indefinite.", "5/C12"),
     "C14": ("TLA+ reference evaluator CelEval with specified host functions (HostApply) and expected call log (Calls) checked by TLC; every "
-            "call-shape program replayed in 16 configurations (list/dict x module def/nested def/lambda/callable object x both runners)",
+            "call-shape program replayed in 28 configurations (list/dict x module def/nested def/lambda/callable object/bound, static and class method x both runners)",
             "TLC enumerates call shapes (global and method form, 0-3 arguments, nested calls, calls under every error-absorbing operator "
             "and inside macro bodies, a supplied function shadowing size, unbound names); the specification's outcome and call log depend "
-            "on the shape only, so uniformity is checked by replaying each state in all 16 ways of supplying the functions and "
+            "on the shape only, so uniformity is checked by replaying each state in all 28 ways of supplying the functions (the override of size also at call sites inside macro bodies) and "
             "comparing outcome and the multiset of calls received; an override must not leak into a later program.",
             "Trusted: TLC, the recording host functions of the harness.", "5/C14"),
     "C05": ("TLA+ state machine CelApi (NewEnv / Program / Evaluate; Outcome is a function of declarations, expression and bindings) "
